@@ -160,14 +160,16 @@ def poison_value(env):
 # ------------------------------------------------------------------ faults
 
 class Interrupter:
-    """Raises KeyboardInterrupt (Ctrl-C) at the k-th call event - Python or
-    C function, i.e. also between two numpy calls - that happens inside
-    mininec code while the context is active."""
+    """Raises KeyboardInterrupt (Ctrl-C) - or MemoryError, a failing
+    allocation - at the k-th call event - Python or C function, i.e. also
+    between two numpy calls - that happens inside mininec code while the
+    context is active."""
 
-    def __init__(self, k):
+    def __init__(self, k, exc='kbd'):
         import mininec
         import os
         self.k = k
+        self.exc = exc
         self.n = 0
         self.fired = False
         self.prefix = os.path.dirname(os.path.abspath(mininec.__file__))
@@ -177,6 +179,8 @@ class Interrupter:
             self.n += 1
             if self.n == self.k:
                 self.fired = True
+                if self.exc == 'mem':
+                    raise MemoryError('simulated allocation failure at call event %d' % self.k)
                 raise KeyboardInterrupt('simulated interrupt at call event %d' % self.k)
 
     def __enter__(self):
@@ -188,19 +192,31 @@ class Interrupter:
         return False
 
 
-def interrupted(fn, k):
-    """Run fn() and interrupt it at call event k.  True if it was
-    interrupted, False if it completed before reaching event k."""
-    it = Interrupter(k)
+def interrupted(fn, k, exc='kbd'):
+    """Run fn() and make it fail at call event k (Ctrl-C or a failing
+    allocation).  True if the operation ended with an exception, False if it
+    completed before reaching event k, 'swallowed' if the fault was raised
+    but the operation completed all the same: the program caught it and
+    carried on - then what it delivers is an ordinary result and is judged
+    as one."""
+    it = Interrupter(k, exc)
     try:
         with it:
             fn()
-    except KeyboardInterrupt:
+    except (KeyboardInterrupt, MemoryError):
         if it.fired:
-            S.fired('interrupt_fired')
+            S.fired('interrupt_fired' if exc == 'kbd' else 'alloc_failure_fired')
             return True
         raise
-    S.fired('interrupt_not_reached')
+    except Exception:
+        if it.fired:
+            S.fired('fault_reraised_as_other_exception')
+            return True
+        raise
+    if it.fired:
+        S.fired('fault_swallowed_by_program')
+        return 'swallowed'
+    S.fired('interrupt_not_reached' if exc == 'kbd' else 'alloc_failure_not_reached')
     return False
 
 
@@ -615,6 +631,12 @@ class ApiRuntime:
             del self.held[0]
 
     def hold_results(self, kind):
+        if self.task.get('drop_results'):
+            # this caller looks at a result and lets go of it: nothing but
+            # the model refers to the result objects when the next request
+            # arrives (reference counts are a circumstance, too)
+            S.fired('caller_drops_results')
+            return
         m = self.m
         if kind == 'COMPUTE':
             for n in ('current', 'Z', 'rhs'):
@@ -721,14 +743,22 @@ class ApiRuntime:
             # issues the same operation again (below, without fault)
             self.poison()
             k = int(fault['interrupt'])
+            ex = fault.get('exc', 'kbd')
             if kind == 'SET_F':
-                interrupted(lambda: setattr(m, 'f', t['pool'][op[1]]), k)
+                res = interrupted(lambda: setattr(m, 'f', t['pool'][op[1]]), k, ex)
             elif kind == 'COMPUTE':
-                interrupted(lambda: do_compute(m, stepwise=(len(op) > 1 and op[1] == 'steps')), k)
+                res = interrupted(lambda: do_compute(m, stepwise=(len(op) > 1 and op[1] == 'steps')), k, ex)
             elif kind == 'FAR':
-                interrupted(lambda: do_far(m, t['fars'][op[1]]), k)
+                res = interrupted(lambda: do_far(m, t['fars'][op[1]]), k, ex)
             else:
-                interrupted(lambda: do_near(m, t['nears'][op[1]]), k)
+                res = interrupted(lambda: do_near(m, t['nears'][op[1]]), k, ex)
+            if res == 'swallowed':
+                # the program caught the fault and completed the operation:
+                # no re-issue, its result stands and is observed like any other
+                st.apply(op)
+                if kind == 'COMPUTE':
+                    self.nfreq_computed.add(st.f)
+                return True, None, {'swallowed': True}
         if not self.st.can(op):
             if kind in ('FAR', 'NEAR') and len(op) > 2 and 'x' in op[2]:
                 # a premature field request (before the first compute, or
@@ -915,9 +945,13 @@ def run_main(argv, disk, torn=None, interrupt=None):
         try:
             if interrupt:
                 box = []
-                hit = interrupted(lambda: box.append(mm.main(list(argv), f_err=err)), int(interrupt))
+                if isinstance(interrupt, (list, tuple)):
+                    k, ex = int(interrupt[0]), interrupt[1]
+                else:
+                    k, ex = int(interrupt), 'kbd'
+                hit = interrupted(lambda: box.append(mm.main(list(argv), f_err=err)), k, ex)
                 rc = box[0] if box else None
-                if hit:
+                if hit is True:
                     raise S.DiskFault('interrupted')
             else:
                 rc = mm.main(list(argv), f_err=err)
@@ -1106,6 +1140,8 @@ def run_history(plan, start=0, disk_files=None, positions=None, apistates=None, 
             if kind == 'RUN':
                 torn = op[2].get('torn') if len(op) > 2 and op[2] else None
                 intr = op[2].get('interrupt') if len(op) > 2 and op[2] else None
+                if intr:
+                    intr = (intr, op[2].get('exc', 'kbd'))
                 key = tuple(op[1])
                 argv_count[key] = argv_count.get(key, 0) + 1
                 if argv_count[key] == 3:
